@@ -2029,3 +2029,62 @@ pub fn a_sc_nested(nat: usize, t2_len: usize) -> Vec<Program> {
     }
     out
 }
+
+/// LIT with staggered spawns: main spawns T1, runs its own accesses / fences, then spawns T2
+/// (what the parent did before a spawn happens-before the child, but does not turn the child's
+/// relaxed stores into releases).
+pub fn lit_spawn_stagger(full: bool) -> Vec<Program> {
+    let mut main_alpha: Vec<Op> = vec![st(0, 0, Rlx), st(0, 0, Rel), fence(Rel), fence(Sc), fence(Acq)];
+    let mut t1_alpha: Vec<Op> = vec![ld(0, Rlx), ld(0, Acq), ld(1, Rlx), ld(1, Acq)];
+    let mut t2_alpha: Vec<Op> = vec![st(1, 0, Rlx), st(1, 0, Rel), fadd(1, 1, Rlx), fadd(1, 1, AcqRel)];
+    if full {
+        main_alpha.extend([st(1, 0, Rlx), ld(1, Rlx), fence(AcqRel), st(0, 0, Sc)]);
+        t1_alpha.extend([fence(Acq), fence(Sc), ld(0, Sc), st(1, 0, Rlx)]);
+        t2_alpha.extend([ld(0, Rlx), ld(0, Acq), st(1, 0, Sc), fence(Rel)]);
+    }
+    let main_seqs: Vec<Vec<Op>> = seqs(&main_alpha, 2).into_iter().filter(|s| s.iter().any(|o| matches!(o.k, K::Store { .. }))).collect();
+    let t1_seqs = seqs(&t1_alpha, 2);
+    let t2_seqs = seqs(&t2_alpha, if full { 2 } else { 1 });
+    let mut out = vec![];
+    let mut seen = HashSet::new();
+    for m in &main_seqs {
+        for t1 in &t1_seqs {
+            for t2 in &t2_seqs {
+                let mut main: Vec<Op> = vec![K::Spawn { t: 1 }.into()];
+                main.extend(m.iter().cloned());
+                main.push(K::Spawn { t: 2 }.into());
+                main.push(K::Join { t: 1 }.into());
+                main.push(K::Join { t: 2 }.into());
+                main.push(ld(0, Rlx));
+                main.push(ld(1, Rlx));
+                let mut threads = vec![main, t1.clone(), t2.clone()];
+                // both locations must be in play
+                let touched1 = threads.iter().flatten().any(|o| atomic_of(&o.k) == Some(1) && !matches!(o.k, K::Load { .. }));
+                let read0 = threads[1..].iter().flatten().any(|o| atomic_of(&o.k) == Some(0));
+                if !touched1 || !read0 {
+                    continue;
+                }
+                let mut v = 0u64;
+                let mut f = 0u64;
+                for op in threads.iter_mut().flatten() {
+                    match &mut op.k {
+                        K::Store { v: x, .. } => {
+                            v += 1;
+                            *x = v;
+                        }
+                        K::FetchAdd { v: x, .. } if *x != 0 => {
+                            f += 1;
+                            *x = 16 * f;
+                        }
+                        _ => {}
+                    }
+                }
+                let p = Program { name: "LIT-spawn-stagger".into(), objs: atomics(2), threads };
+                if seen.insert(p.text()) {
+                    out.push(p);
+                }
+            }
+        }
+    }
+    out
+}
